@@ -38,7 +38,10 @@ def gen_cases(run):
     for _ in range(n_each):
         for cont in range(5):
             n = rng.randrange(1, 9)
-            ids = rng.sample(range(1, 60), n)
+            if rng.random() < 0.02:
+                # LARGE collections: past a byte, past a machine word of members
+                n = rng.choice([63, 64, 65, 127, 129, 255, 256, 257, 300]); dist["large_collections"] = dist.get("large_collections", 0) + 1
+            ids = rng.sample(range(1, 60 if n < 50 else 5000), n)
             # --- assumptions with a verification history
             fns = [rng.choice([0, 1, 2, 3, 4, 5, 6, 7, 100, 101]) for _ in range(n)]
             pre = [0, cont, n]
@@ -75,6 +78,24 @@ def gen_cases(run):
             cases.append(Case("collections", pre, qs, {"kind": "observations", "container": CONT[cont]}))
             dist["kinds"]["observations"] += 1
             dist["containers"][CONT[cont]] += 3; dist["members"] += 3 * n
+    # VERY LARGE collections (more than 65 536 members), one per kind in the Vec container (and one more container in the thorough
+    # tier): counts that are kept in a narrow integer only show here
+    for cont in ((1, 2, 0, 3) if run.thorough else (1,)):
+        n = 70000 + rng.randrange(0, 50)
+        ids = list(range(1, n + 1))
+        pre = [0, cont, n]
+        for i in ids: pre += [i, rng.choice([0, 1, 100, 101])]
+        cases.append(Case("collections", pre, [(0, 0) + tuple(rng.choice([0, 1]) for _ in range(8))], {"kind": "assumptions", "container": CONT[cont], "huge": True}))
+        pre = [1, cont, n]
+        for i in ids:
+            thr = 0.5; obs = rng.choice([0.25, 0.75, 0.75]); tgt = 1.0; eff = rng.choice([1.0, 1.0, 2.0])
+            pre += [i, fb(obs), fb(thr), fb(eff), fb(tgt)]
+        cases.append(Case("collections", pre, [], {"kind": "inferences", "container": CONT[cont], "huge": True}))
+        pre = [2, cont, n]
+        for i in ids:
+            pre += [i, fb(rng.choice([0.25, 0.75])), fb(rng.choice([1.0, 2.0]))]
+        cases.append(Case("collections", pre, [(fb(0.5), fb(1.0))], {"kind": "observations", "container": CONT[cont], "huge": True}))
+        dist["collections_above_65536_members"] = dist.get("collections_above_65536_members", 0) + 3
     return cases, dist
 
 
